@@ -133,9 +133,11 @@ unsafe fn env_protocol<RW: QueueRW<Pay>>(q: *const MultiQueue<RW, Pay>, kind: u8
     }
     let q = &*q;
     let n = q.capacity as usize;
-    if kind == K_USER && G_MY_SHARED && RW::do_drop() {
-        // I am a consumer of a SHARED broadcast stream and I am inside the payload's Clone right now:
-        // the slot I am reading must be protected by a pin of mine that passed the position re-check
+    if kind == K_USER && G_MY_SHARED && RW::do_drop() && G_CONS_CELL != 0 && cell(G_CONS_CELL).peek() >= 2 {
+        // I am a consumer of a broadcast stream that is SHARED at this instant and I am inside the payload's
+        // Clone right now: the slot I am reading must be protected by a pin of mine that passed the position
+        // re-check.  (When every sibling handle was dropped before I looked at the consumer count I am the
+        // sole consumer and need no pin: the count of a stream cannot rise while its only handle is in a call.)
         let mut s = 0;
         while s < n {
             if addr == &(*q.data.add(s)).val as *const Pay as usize {
